@@ -2,8 +2,12 @@ package props
 
 import (
 	"fmt"
+	"github.com/wormhole-foundation/example-near-light-client/types"
+	"github.com/wormhole-foundation/example-near-light-client/variables"
+	"github.com/wormhole-foundation/example-near-light-client/verifier"
 	"math/big"
 	"runtime/debug"
+	"strings"
 	"testing"
 
 	"verif/corp"
@@ -71,7 +75,36 @@ func c02Compiled(it c02Item) (bool, string, map[string]any) {
 	return true, "", map[string]any{"constraints": sys.CCS.GetNbConstraints(), "mechanism": mech.String()}
 }
 
+// twoProofs: one VerifierChip verifying two proofs of the same inner circuit in one gnark circuit
+// (what an aggregating circuit does); nothing may carry over from the first verification to the second.
+type twoProofs struct {
+	PI1, PI2 []gl.Variable
+	P1, P2   variables.Proof
+	VD1, VD2 variables.VerifierOnlyCircuitData
+	CD       types.CommonCircuitData `gnark:"-"`
+}
+
+func (c *twoProofs) Define(api frontend.API) error {
+	chip := verifier.NewVerifierChip(api, c.CD)
+	chip.Verify(c.P1, c.PI1, c.VD1)
+	chip.Verify(c.P2, c.PI2, c.VD2)
+	return nil
+}
+
 func c02Run(it c02Item) (ok bool, desc string, extra map[string]any) {
+	if it.Wrapper == "two-proofs-one-chip" {
+		names := strings.Split(it.Base, "+")
+		a, b := wv.Load(names[0], it.K), wv.Load(names[1], it.K)
+		mk := func() *twoProofs {
+			x, y := a.Circuit(), b.Circuit()
+			return &twoProofs{PI1: x.PublicInputs, PI2: y.PublicInputs, P1: x.Proof, P2: y.Proof, VD1: x.VerifierData, VD2: y.VerifierData, CD: a.CD}
+		}
+		res := eng.Run(mk(), mk(), eng.Options{Mode: eng.Mode(it.Mode), ForceBitDecomp: it.Force})
+		if res.Outcome == eng.Accept && res.TolerantHints > 0 {
+			return false, "a shipped hint function failed on honest proofs", nil
+		}
+		return res.Outcome == eng.Accept, "second of two honest proofs verified through one VerifierChip: " + fmtRes(res), map[string]any{"hints": res.NHints}
+	}
 	if it.Backend != "" {
 		return c02Compiled(it)
 	}
@@ -149,7 +182,7 @@ func c02Run(it c02Item) (ok bool, desc string, extra map[string]any) {
 func TestC02(t *testing.T) {
 	r := rec.New("C02")
 	defer r.Flush()
-	r.Rule("work items (corpus proof in {A1,A2 (16 public inputs), B1,B2,B3 (97)}, query-round prefix k in 1..28, configured proof-of-work difficulty as generated (16) or lowered (0, 1, 5, 8, 15; the transcript does not contain it, so the proof stays valid; with difficulty 0 and zero query rounds additionally every pow_witness value written into the proof document - 0, 2^63-1, 2^63, p-1, ... - gives a valid proof), engine flavour {native, plain(bit decomposition), commit, forced bit decomposition}, wrapper {VerifierCircuit, CircuitFixed (A instances), gnark test engine, bound-monitored run, 'process history' = 40 circuits built one after the other in one process without ever emptying the repository's chip cache}, backend {evaluation engine; whole circuit compiled with gnark's real R1CS / SCS builder for the commit, forced-bit and native mechanisms and solved}); every item is a complete honest verification and must be ACCEPTed; monitored runs additionally require, at every witnessed reduction/multiply-add (grouped by static call site), that the largest operand an honest prover can produce fits the quotient width the circuit enforces.  Every item is non-trivial; distinct = item tuple.")
+	r.Rule("work items (corpus proof in {A1,A2 (16 public inputs), B1,B2,B3 (97)}, query-round prefix k in 1..28, configured proof-of-work difficulty as generated (16) or lowered (0, 1, 5, 8, 15; the transcript does not contain it, so the proof stays valid; with difficulty 0 and zero query rounds additionally every pow_witness value written into the proof document - 0, 2^63-1, 2^63, p-1, ... - gives a valid proof), engine flavour {native, plain(bit decomposition), commit, forced bit decomposition}, wrapper {VerifierCircuit, CircuitFixed (A instances), two proofs of one inner circuit verified one after the other through one VerifierChip, gnark test engine, bound-monitored run, 'process history' = 40 circuits built one after the other in one process without ever emptying the repository's chip cache}, backend {evaluation engine; whole circuit compiled with gnark's real R1CS / SCS builder for the commit, forced-bit and native mechanisms and solved}); every item is a complete honest verification and must be ACCEPTed; monitored runs additionally require, at every witnessed reduction/multiply-add (grouped by static call site), that the largest operand an honest prover can produce fits the quotient width the circuit enforces.  Every item is non-trivial; distinct = item tuple.")
 	r.Assume("the five corpus proofs were produced by the real plonky2 prover (they are accepted by the independent reference verifier)", "prefix restriction of an honest proof is an honest proof of the adjusted configuration", "monitor completeness side assumes values passing the Goldilocks RangeCheck are < p (C06)")
 
 	var rp c02Item
@@ -202,6 +235,8 @@ func TestC02(t *testing.T) {
 		add("A1", 40, eng.ModeNative, false, "process-history")
 		add("B1", 2, eng.ModeCommit, false, "plain")
 		// configuration variants: the same honest proofs against a description with a lower proof-of-work difficulty
+		add("A1+A2", 1, eng.ModeNative, false, "two-proofs-one-chip")
+		add("B2+B1", 2, eng.ModeNative, false, "two-proofs-one-chip")
 		add("A1@pow0", 3, eng.ModeNative, false, "plain")
 		add("B1@pow5", 1, eng.ModeNative, false, "plain")
 		add("A2@pow0", 1, eng.ModeNative, false, "fixed")
@@ -216,6 +251,11 @@ func TestC02(t *testing.T) {
 			add(fmt.Sprintf("%s@k0@pow0@w%d", corp.Names[i%5], w), 1, eng.ModeNative, false, "plain")
 		}
 		add(fmt.Sprintf("A1@k0@pow0@w%d", uint64(1<<63+7)), 1, eng.ModeCommit, false, "plain")
+		for _, pr := range []string{"A1+A2", "A2+A1", "B1+B2", "B3+B1", "B2+B3"} {
+			add(pr, 1, eng.ModeNative, false, "two-proofs-one-chip")
+			add(pr, 28, eng.ModeNative, false, "two-proofs-one-chip")
+			add(pr, 2, eng.ModePlain, false, "two-proofs-one-chip")
+		}
 		for i, b := range corp.Names {
 			for _, pw := range []int{0, 1, 8, 15} {
 				add(fmt.Sprintf("%s@pow%d", b, pw), 1+(i+pw)%5, eng.ModeNative, false, "plain")
